@@ -15,9 +15,9 @@
      checks it on the real code after every rejected load.
    * that the archived legacy files ARE sequences of framed sections is checked by
      the correspondence (the model reads every fixture completely), not proved. *)
+From Coq.Strings Require Import String.
 From Coq Require Import List NArith ZArith Bool.
 From Coq.Strings Require Import Byte.
-From Coq.Strings Require String.
 From Slim Require Import Varint VarintProofs Proto ProtoProofs Semver Frame FrameProofs Instance InstanceProofs Wire WireProofs.
 Import ListNotations.
 Open Scope N_scope.
@@ -107,7 +107,6 @@ Print Assumptions C07_rejected_load_state_partial.
 
 (* ---- the constants the model was written for, and concrete version strings ----------------- *)
 Definition s (x : String.string) : list byte := String.list_byte_of_string x.
-Delimit Scope string_scope with string.
 Arguments s x%string.
 
 Example ex_constants :
